@@ -20,6 +20,14 @@ def gen_case(rng, k):
         lines += ["module %s" % name, "  def %s" % meth, "    1", "  end", "end", ""]
         mods.append((name, meth))
     classes = []          # dict: name, parent, pub, priv, prot, cms, init_arity, includes, extends
+
+    def chain_of(ci):
+        out = []
+        while ci:
+            out.append(ci)
+            ci = ci["parent"]
+        return out
+
     depth = rng.randint(1, 4)
     for c in range(depth):
         name = "Cl%d_%d" % (k, c)
@@ -42,6 +50,11 @@ def gen_case(rng, k):
             mname = "pu%d_%d_%d" % (k, c, j)
             lines += ["  def %s" % mname, "    1", "  end"]
             info["pub"].append(mname)
+        anc_prot = [(x["name"], m) for x in chain_of(parent) for m in x["prot"]]
+        if anc_prot and rng.random() < 0.8:
+            # a protected method of an ancestor (any depth) called on another object from inside a descendant: fine
+            lines += ["  def pk%d_%d(other)" % (k, c), "    other.%s" % rng.choice(anc_prot)[1], "  end"]
+            info["peek"] = "pk%d_%d" % (k, c)
         if rng.random() < 0.5:
             mname = "cm%d_%d" % (k, c)
             if rng.random() < 0.5:
@@ -62,6 +75,14 @@ def gen_case(rng, k):
             info["prot"].append(mname)
         lines += ["end", ""]
         classes.append(info)
+
+    all_prot = [(x, m) for x in classes for m in x["prot"]]
+    outsider = None
+    if all_prot and rng.random() < 0.6:
+        # the same call from a class outside the hierarchy is reported (on the line of the call in the body)
+        x, m = rng.choice(all_prot)
+        lines += ["class Out%d" % k, "  def pko%d(other)" % k, "    other.%s" % m, "  end", "end", ""]
+        outsider = (x, len(lines) - 3)
 
     def chain(ci):
         out = []
@@ -94,6 +115,10 @@ def gen_case(rng, k):
             expect_bad.add(len(lines))
         for m in cms:
             lines.append("%s.%s" % (ci["name"], m))
+        if ci.get("peek"):
+            lines.append("%s.%s(%s.new(%s))" % (var, ci["peek"], ci["name"], ", ".join(["1"] * ar)))
+        if pubs and rng.random() < 0.5:
+            lines.append("%s.new(%s).%s" % (ci["name"], ", ".join(["1"] * ar), rng.choice(pubs)))      # chained on the fresh instance
         lines.append("%s.nope%d" % (var, k))
         expect_bad.add(len(lines))
         lines.append("%s.nope%d" % (ci["name"], k))
@@ -108,6 +133,12 @@ def gen_case(rng, k):
         if ci["pub"]:
             lines.append("%s.%s" % (ci["name"], ci["pub"][0]))
             expect_bad.add(len(lines))
+    if outsider:
+        x, row = outsider
+        init = next((y["init"] for y in chain(x) if y["init"] is not None), None)
+        lines.append("ou%d = Out%d.new" % (k, k))
+        lines.append("ou%d.pko%d(%s.new(%s))" % (k, k, x["name"], ", ".join(["1"] * (init or 0))))
+        expect_bad.add(row)
     first_call_row = next(i + 1 for i, l in enumerate(lines) if " = Cl" in l)
     return "\n".join(lines) + "\n", expect_bad, first_call_row, inherited
 
@@ -209,8 +240,8 @@ def run_e2e(ctx, n, tag):
             f = line.split(":::", 2)
             if len(f) == 3:
                 got.setdefault(int(f[1]), []).append(f[2])
-        rows_bad = set(r for r in got if r >= first)
-        defs_bad = [r for r in got if r < first]
+        rows_bad = set(r for r in got if r >= first or r in bad)
+        defs_bad = [r for r in got if r < first and r not in bad]
         if rows_bad != bad or defs_bad:
             miss = sorted(bad - rows_bad)
             extra = sorted(rows_bad - bad) + defs_bad
